@@ -12,10 +12,13 @@ loader.exec_module(check_mod)
 import units, gen, verus_run
 p = os.path.join(VERIF, "contracts", "trust_allow.json")
 allow = json.load(open(p)) if os.path.exists(p) else {}
+kfp = os.path.join(VERIF, "contracts", "known_functions.json")
+known = json.load(open(kfp)) if os.path.exists(kfp) else {}
 pp = os.path.join(VERIF, "contracts", "stub_pins.json")
 pins = json.load(open(pp)) if os.path.exists(pp) else {}
 for u in (sys.argv[1:] or list(units.UNITS)):
     meta = gen.generate(units.UNITS[u], verus_run.GEN_DIR)
+    known[u] = sorted("%s::%s" % (f["file"], f["path"]) for f in meta["functions"])
     for f in meta["functions"]:
         if f.get("stub_sha"):
             pins["%s::%s" % (f["file"], f["path"])] = f["stub_sha"]
@@ -27,3 +30,4 @@ for u in (sys.argv[1:] or list(units.UNITS)):
 json.dump(allow, open(p, "w"), indent=1, sort_keys=True)
 json.dump(pins, open(pp, "w"), indent=1, sort_keys=True)
 print("stub pins:", pins)
+json.dump(known, open(kfp, "w"), indent=1, sort_keys=True)
